@@ -46,6 +46,13 @@ STMT_WRAPS = ["if True:\n    BODY", "if False:\n    BODY", "while False:\n    BO
               "try:\n    BODY\nfinally:\n    pass", "if qq_undefined:\n    BODY"]
 
 STMT_SNIPPETS = [
+    "if False:\n    dd_ = undefined_in_dead_code",
+    "if False:\n    dd_ = 1\n    ee_ = dd_ + undefined_dead2",
+    "if True:\n    pass\nelse:\n    dd_ = undefined_dead3",
+    "while False:\n    dd_ = undefined_dead4",
+    "if False:\n    dd_ = later_assigned_\nlater_assigned_ = 1",
+    "if False:\n    result('dead', 1.5 + 'a')",
+    "if False:\n    qd_ = qubit()",
     "cnd_ = 1 > 0\nif cnd_:\n    alpha = 1\n    beta = 2\nelse:\n    alpha = 1.5\n    beta = True\ngam_ = alpha\ndel_ = beta",
     "cnd_ = 1 > 0\nif cnd_:\n    zeta = 1\n    eta = 2\n    theta = 3\nelse:\n    zeta = True\n    eta = 2.5\n    theta = (1, 2)\nr1_ = (zeta, eta, theta)",
     "cnd_ = 1 > 0\nif cnd_:\n    kappa = 1\nelse:\n    lam = 2\nr2_ = kappa\nr3_ = lam",
